@@ -205,6 +205,18 @@ def repetition_cases():
                         body.append('\tshift')
                         left = left[1:]
                 yield pair(['m\tmacro ' + ','.join(names)] + body + ['\tendm', '\tm ' + ','.join(args), '\tdb 9'], exp + ['\tdb 9'], 'shift/formals-vs-arguments')
+    # the same with empty arguments in every position: they are arguments, ARGCOUNT counts them and ALLARGS keeps their commas
+    for args in itertools.product(('', '5', '66'), repeat=3):
+        for K in range(0, 3):
+            body, exp = [], []
+            left = list(args)
+            for k in range(K + 1):
+                body += ['\tdb ARGCOUNT', '\tdb 102,"ALLARGS",0']
+                exp += ['\tdb %d' % len(left), '\tdb 102,"%s",0' % ','.join(left)]
+                if k < K:
+                    body.append('\tshift')
+                    left = left[1:]
+            yield pair(['m\tmacro P0,P1,P2'] + body + ['\tendm', '\tm ' + ','.join(args), '\tdb 9'], exp + ['\tdb 9'], 'shift/empty-arguments')
     # a construct without body lines (or with zero repetitions) inside a macro body must leave the macro's local labels private
     for empty, tag in ((['e\tmacro', '\tendm'], 'macro'), ([], 'rept0'), ([], 'rept-empty'), ([], 'irp-empty'), ([], 'while0')):
         call = {'macro': ['\te'], 'rept0': ['\trept 0', '\tdb 5', '\tendm'], 'rept-empty': ['\trept 2', '\tendm'], 'irp-empty': ['\tirp Q,1,2', '\tendm'],
